@@ -9,6 +9,7 @@
 //!   O ...          what the implementation did / returned (canonicalised)
 //!   V <prop> ...   the direct oracle saw the *property* fail on the real code
 //!   # ...          statistics
+mod fam_hcobs;
 mod fam_readn;
 mod util;
 
@@ -17,7 +18,11 @@ use std::panic::{catch_unwind, AssertUnwindSafe};
 use util::{Exec, Family, Rng, StepOut};
 
 fn families() -> Vec<Box<dyn Family>> {
-    vec![Box::new(fam_readn::ReadNFamily)]
+    vec![
+        Box::new(fam_hcobs::HcobsEncFamily),
+        Box::new(fam_hcobs::HcobsDecFamily),
+        Box::new(fam_readn::ReadNFamily),
+    ]
 }
 
 struct Stats {
